@@ -376,7 +376,7 @@ let oracle_c10 (p : parsed) (observed : S.t) : string =
 let oracle (prop : string) (p : parsed) (observed : S.t) : string =
   if prop = "C10" then oracle_c10 p observed else
   let spec = run_spec p in
-  if not (Model.wf_doc p.schema p.doc) then "holds:outside-claim-undeclared-or-repeated-argument" else
+  if not (Model.wf_doc p.schema p.doc) then "holds:outside-claim-repeated-argument-or-argument-undeclared-by-an-interface" else
   let observed, printed =
     (match observed with
      | S.L l when l <> [] ->
